@@ -35,7 +35,7 @@ func main() {
 		fmt.Fprintln(os.Stderr, "LOAD ERROR:", err)
 		os.Exit(3)
 	}
-	timeout := 10 * time.Second
+	timeout := 20 * time.Second
 	if *tier == "thorough" {
 		timeout = 60 * time.Second
 	}
@@ -230,6 +230,9 @@ func runContracts(eng *Engine, prop, fnFilter, work string, timeout time.Duratio
 				// vacuity probes: an inconsistent context is refuted quickly; a consistent one with
 				// quantifiers is rarely shown satisfiable, so do not wait for that
 				to = timeout / 5
+				if to > 3*time.Second {
+					to = 3 * time.Second
+				}
 			}
 			r := solve(work, j.o.Name, q, vals, to, cross && !j.o.Cover)
 			res := OblResult{Name: j.o.Name, Kind: j.o.Kind, Func: j.o.Func, Where: j.o.Where, Desc: j.o.Desc,
